@@ -233,6 +233,12 @@ def w2(prog, ctx):
                 ctx.undecided("W2", c, fq, "weight %s has %d reaching definitions at %s" % (wexpr.id, len(reach), src(c)[:60]))
                 continue
             d = reach[0].value
+            if isinstance(d, ast.Call) and d.args and isinstance(d.args[-1], ast.Name):
+                # the feature count hoisted into a local: k = len(features)
+                kdefs = [st_.value for st_ in walk_no_nested(f) if isinstance(st_, ast.Assign) and len(st_.targets) == 1
+                         and src(st_.targets[0]) == d.args[-1].id]
+                if len(kdefs) == 1 and isinstance(kdefs[0], ast.Call) and dotted(kdefs[0].func) == "len":
+                    d = ast.copy_location(ast.Call(func=d.func, args=list(d.args[:-1]) + [kdefs[0]], keywords=d.keywords), d)
             ok_def = isinstance(d, ast.Call) and (call_name(d) or "").startswith("self.read_counter.process_") and d.args \
                 and isinstance(d.args[-1], ast.Call) and dotted(d.args[-1].func) == "len"
             if not ok_def:
